@@ -119,6 +119,13 @@ StageDrift(S) ==
          \o Check(E.stage[i].scores.big \/ E.stage[i].scores.v = evs[i].scores, l, "L2", "scores differ from Score.tla")
          \o Check(E.stage[i].pass = evs[i].pass, l, "L2", "filter verdict differs from Score.tla")
          \o Check(evs[i].safe, l, "L2", "an unsigned subtraction of the matcher would underflow (ArithSafe)")])
+        \* sort::compare_hits on every pair of scored records is the lexicographic order of the recorded score vectors
+        \o (IF Has(E, "cmp") THEN
+              Check(\A k \in DOMAIN E.cmp :
+                       LET a == E.stage[E.cmp[k][1] + 1].scores  b == E.stage[E.cmp[k][2] + 1].scores IN
+                       a.big \/ b.big \/ E.cmp[k][3] = LexCmp(KeyOf(a.v), KeyOf(b.v)),
+                    l, "L2", "compare_hits is not the lexicographic order of the score vectors")
+             ELSE <<>>)
         \o (IF Len(s.records) <= CapFactor * s.limit /\ UniqueIds(s)
              THEN LET \* an empty query only considers the positions of the top-rated list (checked separately)
                       \* and a query with words only the records the index offers (those sharing a gram)
